@@ -2,6 +2,7 @@
 
 Metamorphic: the canonical application reply to a payload must be the same for all port pairs and both IP versions (per
 transport); `canon` blanks exactly the fields that by specification carry an endpoint address or wall-clock time."""
+import struct
 import time
 
 from .. import core, gen, pkt, canon as canon_mod
@@ -11,7 +12,8 @@ from ..protos import http, dns, stun, rpc, smb
 
 PROP = "C19"
 PORTS = [0, 1, 22, 53, 80, 111, 445, 3478, 65535]
-RULE = ("corpus = valid requests of every application protocol/form plus byte-mutated variants; each payload is sent to 12 "
+RULE = ("corpus = valid requests of every application protocol/form, byte-mutated variants and DNS-query/STUN polyglots; two UDP "
+        "placements per payload use the source port that makes the request's UDP checksum the 0xFFFF encoding; each payload is sent to 12 "
         "(sport, dport) pairs drawn from {0, 1, 22, 53, 80, 111, 445, 3478, 65535, random} x {IPv4, IPv6} over UDP and over "
         "cookie-validated TCP flows (one segment); whether it is answered and the canonical reply must be identical across all 24 "
         "placements of one transport. Canonical form: parsed by the independent codecs; STUN MAPPED-ADDRESS removed (length "
@@ -43,6 +45,32 @@ def canon_app(req, rep):
         m = dns.mask(rep)
         return ("dns", m) if m is not None else UNPARSEABLE
     return ("raw", rep)
+
+
+def polyglots(rng):
+    """Payloads that are at the same time a well-formed DNS IN/A query and complete a signature (RFC 3489 STUN forms):
+    which responder answers them must not depend on the port either."""
+    out = []
+    for _ in range(3):
+        name = dns.name([bytes(rng.choice(b"abcdefgh") for _x in range(rng.choice([1, 2])))])
+        q = name + b"\x00\x01\x00\x01"
+        # 20-byte form: id 0x0001, flags 0x0000 (= STUN length 0), one question
+        m = b"\x00\x01\x00\x00" + struct.pack("!HHHH", 1, 0, 0, 0) + q
+        m = (m + bytes(20))[:20]
+        out.append(("polyglot_stun20", m, m))
+        # 28-byte CHANGE-REQUEST form: flags 0x0008
+        m = b"\x00\x01\x00\x08" + struct.pack("!HHHH", 1, 0, 0, 0) + q
+        m = (m + bytes(20))[:20] + b"\x00\x03\x00\x04\x00\x00\x00" + bytes([rng.choice([0, 2, 4, 6])])
+        out.append(("polyglot_stun28", m, m))
+    return out
+
+
+def sport_for_checksum_ffff(e, dp, payload):
+    """Source port for which the UDP checksum of the request computes to 0 (transmitted as 0xFFFF)."""
+    base = pkt.udp(e.cip, e.sip, 0, dp, payload, cs=0)
+    s0 = pkt.csum_fold(pkt.csum_sum(pkt.pseudo(e.cip, e.sip, 17, len(base)) + base))     # sum with sport = 0
+    sp = (0xFFFF - s0) % 0xFFFF
+    return sp if sp else 0xFFFF
 
 
 def placements(rng):
@@ -84,9 +112,14 @@ def shard(ctx, budget_s):
             if rng.random() < 0.5:
                 m = gen.mutate(rng, u)
                 corpus.append((name + "_mut", m, m))
+        corpus += polyglots(rng)
         for name, u, t in corpus:
             pls = placements(rng)
             ends = [gen.endp(rng, cfg, v6) for v6, _s, _d in pls]
+            # two placements whose (valid) UDP checksum is the special encoding 0xFFFF of a computed zero
+            for k in (0, len(pls) - 1):
+                v6, _sp, dp = pls[k]
+                pls[k] = (v6, sport_for_checksum_ffff(ends[k], dp, u), dp)
             # --- UDP
             rs = ctx.send_many([e.udp(sp, dp, u) for e, (v6, sp, dp) in zip(ends, pls)])
             res = []
